@@ -620,23 +620,21 @@ pub fn collect_protocol_fees(deps: DepsMut) -> Result<Response, ContractError> {
 
     // get the collected protocol fees so far
     let protocol_fees = COLLECTED_PROTOCOL_FEES.load(deps.storage)?;
-    // reset the collected protocol fees
+    // reset the collected protocol fees that are going to be sent; amounts at or below the minimum
+    // collectable balance are not transferred, so they stay in the ledger
     COLLECTED_PROTOCOL_FEES.save(
         deps.storage,
-        &vec![
-            Asset {
-                info: protocol_fees[0].clone().info,
-                amount: Uint128::zero(),
-            },
-            Asset {
-                info: protocol_fees[1].clone().info,
-                amount: Uint128::zero(),
-            },
-            Asset {
-                info: protocol_fees[2].clone().info,
-                amount: Uint128::zero(),
-            },
-        ],
+        &protocol_fees
+            .iter()
+            .map(|protocol_fee| Asset {
+                info: protocol_fee.info.clone(),
+                amount: if protocol_fee.amount > MINIMUM_COLLECTABLE_BALANCE {
+                    Uint128::zero()
+                } else {
+                    protocol_fee.amount
+                },
+            })
+            .collect::<Vec<Asset>>(),
     )?;
 
     let mut messages: Vec<CosmosMsg> = Vec::new();
